@@ -1314,6 +1314,10 @@ func JSONBodyDecoder(body io.Reader, header http.Header, schema *openapi3.Schema
 	if err := dec.Decode(&value); err != nil {
 		return nil, &ParseError{Kind: KindInvalidFormat, Cause: err}
 	}
+	// the body is one JSON value: nothing but white space may follow it
+	if _, err := dec.Token(); err != io.EOF {
+		return nil, &ParseError{Kind: KindInvalidFormat, Reason: "unexpected data after the JSON value"}
+	}
 	return value, nil
 }
 
